@@ -218,7 +218,7 @@ def run(chk):
     exactness(chk, degrees)
     vals = [0, 1, 2, 3, 5] if chk.tier == "quick" else [0, 1, 2, 3, 4, 5, 7, 10]
     pairs = list(itertools.combinations(vals, 2)) + [(1, "vertex"), ("vertex", 4)]
-    ents = rule_pair_entries(pairs) + [e for e in corpus.fixed() if e.name in ("multi_rule", "quadrature_element")]
+    ents = rule_pair_entries(pairs) + [e for e in corpus.fixed() if e.name in ("multi_rule", "quadrature_element", "single_point_rules", "multi_rule_coefs", "quadrature_element_mixed_rules")]
 
     def work(i):
         return numeric.compare_entry(ents[i], {}, seed=chk.seed * 17 + i, reps=1, all_entities=False)
